@@ -38,7 +38,14 @@ type caseInput struct {
 	Settings kube.Settings    `json:"settings"`
 	Group    manifest.Group   `json:"group"`
 	Group2   *manifest.Group  `json:"group_after_update,omitempty"`
-	gkey     int              // driver's group index + 1 (0 = unknown): lets the verdict memo recognise the same group
+	// optional continuation of the update sequence; settings change = provider restarted with a new
+	// configuration (e.g. network policies switched on or off) between two Deploy calls
+	Settings2 *kube.Settings  `json:"settings_after_update,omitempty"`
+	Group3    *manifest.Group `json:"group_third,omitempty"`
+	Settings3 *kube.Settings  `json:"settings_third,omitempty"`
+	// path "fault": which API call of which Deploy answers with which error (nil = enumerate all)
+	Fault *faultSpec `json:"fault,omitempty"`
+	gkey  int        // driver's group index + 1 (0 = unknown): lets the verdict memo recognise the same group
 }
 
 func foreignNamespaces(st kube.Settings, ls []mtypes.LeaseID, g *manifest.Group) []*corev1.Namespace {
@@ -344,106 +351,151 @@ func objCount(o *objects) int {
 	return len(o.Namespaces) + len(o.Deployments) + len(o.Services) + len(o.Ingresses) + len(o.NetPols)
 }
 
-// evalDeploy: path (b). Deploy(lease, group); Deploy(lease, group2); Deploy(sibling, group);
-// TeardownLease(lease). The oracle is run on the fake API server's content after every step.
+// deploySteps lists the Deploy calls of the update sequence described by a case input.
+type deployStep struct {
+	group *manifest.Group
+	st    kube.Settings
+}
+
+func deploySteps(in *caseInput) []deployStep {
+	steps := []deployStep{{&in.Group, in.Settings}}
+	if in.Group2 != nil {
+		st := in.Settings
+		if in.Settings2 != nil {
+			st = *in.Settings2
+		}
+		steps = append(steps, deployStep{in.Group2, st})
+		if in.Group3 != nil {
+			if in.Settings3 != nil {
+				st = *in.Settings3
+			}
+			steps = append(steps, deployStep{in.Group3, st})
+		}
+	}
+	return steps
+}
+
+// names of the network policies written (create/update) by the recorded API calls
+func freshPolicies(acts []k8stesting.Action) map[string]bool {
+	m := map[string]bool{}
+	for _, a := range acts {
+		if a.GetResource().Resource != "networkpolicies" {
+			continue
+		}
+		var obj runtime.Object
+		switch x := a.(type) {
+		case k8stesting.CreateAction:
+			obj = x.GetObject()
+		case k8stesting.UpdateAction:
+			obj = x.GetObject()
+		}
+		if obj != nil {
+			if acc, err := meta.Accessor(obj); err == nil {
+				m[acc.GetNamespace()+"/"+acc.GetName()] = true
+			}
+		}
+	}
+	return m
+}
+
+// judgeLeaseState runs every clause on what the API server holds for one lease. fresh (optional):
+// the policies written by the latest Deploy; a network-policy violation that disappears when only
+// those are considered is caused by a policy left over from an earlier manifest.
+func judgeLeaseState(stage string, st kube.Settings, l mtypes.LeaseID, g, prev *manifest.Group, all map[string]*objects,
+	foreign []mtypes.LeaseID, fresh map[string]bool, complete bool) (out []violation, nontrivial bool) {
+	c := &checkCtx{lid: l, ns: kube.VerifLidNS(l), st: st, group: g, prev: prev, strictNS: true, stage: stage}
+	c.foreign = foreignNamespaces(st, foreign, g)
+	o := all[c.ns]
+	if complete && (o == nil || len(o.Namespaces) != 1) {
+		c.fail("namespace:missing", "no Namespace object %q on the API server after Deploy", c.ns)
+	}
+	if o != nil {
+		if len(o.Namespaces) == 0 && objCount(o) > 0 {
+			c.fail("namespace:missing", "%d objects in %q without a Namespace object carrying the lease labels", objCount(o), c.ns)
+		}
+		c.checkAll(o, true)
+		if fresh != nil {
+			np := false
+			for _, v := range c.out {
+				if strings.HasPrefix(v.Sig, "netpol:") {
+					np = true
+				}
+			}
+			if np && len(o.Namespaces) > 0 {
+				c2 := &checkCtx{lid: l, ns: c.ns, st: st, group: g, prev: prev, strictNS: true, stage: stage, foreign: c.foreign}
+				var only []*netv1.NetworkPolicy
+				var stale []string
+				for _, p := range o.NetPols {
+					if fresh[p.Namespace+"/"+p.Name] {
+						only = append(only, p)
+					} else {
+						stale = append(stale, p.Name)
+					}
+				}
+				c2.checkNetPols(o.Namespaces[0], only, podLabelsOf(o.Deployments))
+				still := map[string]bool{}
+				for _, v := range c2.out {
+					still[v.Sig] = true
+				}
+				for i := range c.out {
+					if strings.HasPrefix(c.out[i].Sig, "netpol:") && !still[c.out[i].Sig] && len(stale) > 0 {
+						c.out[i].Detail += fmt.Sprintf(" [%s; admitted by policies %v left over from the previous manifest]", c.out[i].Sig, stale)
+						c.out[i].Sig = "netpol:stale-policy-after-update"
+					}
+				}
+			}
+		}
+		// completeness of the object set is only demanded of a Deploy that was not disturbed
+		if complete && len(o.Deployments) != len(g.Services) {
+			c.fail("deployment:count", "%d deployments on the API server for %d services", len(o.Deployments), len(g.Services))
+		}
+		if len(o.Services)+len(o.Ingresses)+len(o.NetPols) > 0 {
+			nontrivial = true
+		}
+	}
+	return c.out, nontrivial
+}
+
+func objectsOutside(stage string, all map[string]*objects, allowed ...string) []violation {
+	var out []violation
+	for n, o := range all {
+		ok := false
+		for _, a := range allowed {
+			if n == a {
+				ok = true
+			}
+		}
+		if !ok && objCount(o) > 0 {
+			out = append(out, violation{Sig: "api:object-outside-namespace", Detail: fmt.Sprintf("%s: %d objects found in namespace %q, expected only %v", stage, objCount(o), n, allowed)})
+		}
+	}
+	return out
+}
+
+// evalDeploy: path (b). Deploy(lease, group) [; Deploy(lease, group2) [; Deploy(lease, group3)]] - each
+// possibly under changed provider settings -; Deploy(sibling, group); TeardownLease(lease). The oracle
+// is run on the fake API server's content after every step.
 func evalDeploy(in *caseInput) ([]violation, bool, error) {
 	ctx := context.Background()
-	lid, st := in.Lease, in.Settings
+	lid := in.Lease
 	kc := newFakeKube()
 	ac := akashfake.NewSimpleClientset()
-	cl := kube.VerifNewClient(nopLog, "lease", st, kc, ac)
 	ns := kube.VerifLidNS(lid)
 	var out []violation
 	nontrivial := false
+	steps := deploySteps(in)
+	st := steps[0].st
+	cl := kube.VerifNewClient(nopLog, "lease", st, kc, ac)
 
-	// names of the network policies written (create/update) by the API calls recorded right now
-	freshPols := func() map[string]bool {
-		m := map[string]bool{}
-		for _, a := range kc.Actions() {
-			if a.GetResource().Resource != "networkpolicies" {
-				continue
-			}
-			var obj runtime.Object
-			switch x := a.(type) {
-			case k8stesting.CreateAction:
-				obj = x.GetObject()
-			case k8stesting.UpdateAction:
-				obj = x.GetObject()
-			}
-			if obj != nil {
-				if acc, err := meta.Accessor(obj); err == nil {
-					m[acc.GetNamespace()+"/"+acc.GetName()] = true
-				}
-			}
-		}
-		return m
-	}
 	check := func(stage string, l mtypes.LeaseID, g *manifest.Group, all map[string]*objects, foreign []mtypes.LeaseID, fresh map[string]bool) {
-		c := &checkCtx{lid: l, ns: kube.VerifLidNS(l), st: st, group: g, strictNS: true, stage: stage}
-		c.foreign = foreignNamespaces(st, foreign, g)
-		o := all[c.ns]
-		if o == nil || len(o.Namespaces) != 1 {
-			c.fail("namespace:missing", "no Namespace object %q on the API server after Deploy", c.ns)
-		}
-		if o != nil {
-			c.checkAll(o, true)
-			// a network-policy violation that disappears when only the policies written by the latest
-			// Deploy are considered is caused by a policy left over from the previous manifest
-			if fresh != nil {
-				np := false
-				for _, v := range c.out {
-					if strings.HasPrefix(v.Sig, "netpol:") {
-						np = true
-					}
-				}
-				if np && len(o.Namespaces) > 0 {
-					c2 := &checkCtx{lid: l, ns: c.ns, st: st, group: g, strictNS: true, stage: stage, foreign: c.foreign}
-					var only []*netv1.NetworkPolicy
-					var stale []string
-					for _, p := range o.NetPols {
-						if fresh[p.Namespace+"/"+p.Name] {
-							only = append(only, p)
-						} else {
-							stale = append(stale, p.Name)
-						}
-					}
-					c2.checkNetPols(o.Namespaces[0], only, podLabelsOf(o.Deployments))
-					still := map[string]bool{}
-					for _, v := range c2.out {
-						still[v.Sig] = true
-					}
-					for i := range c.out {
-						if strings.HasPrefix(c.out[i].Sig, "netpol:") && !still[c.out[i].Sig] && len(stale) > 0 {
-							c.out[i].Detail += fmt.Sprintf(" [%s; admitted by policies %v left over from the previous manifest]", c.out[i].Sig, stale)
-							c.out[i].Sig = "netpol:stale-policy-after-update"
-						}
-					}
-				}
-			}
-			if len(o.Deployments) != len(g.Services) {
-				c.fail("deployment:count", "%d deployments on the API server for %d services", len(o.Deployments), len(g.Services))
-			}
-			if len(o.Services)+len(o.Ingresses)+len(o.NetPols) > 0 {
-				nontrivial = true
-			}
-		}
-		out = append(out, c.out...)
+		vs, nt := judgeLeaseState(stage, st, l, g, nil, all, foreign, fresh, true)
+		out = append(out, vs...)
+		nontrivial = nontrivial || nt
 	}
 	expectOnly := func(stage string, all map[string]*objects, allowed ...string) {
-		for n, o := range all {
-			ok := false
-			for _, a := range allowed {
-				if n == a {
-					ok = true
-				}
-			}
-			if !ok && objCount(o) > 0 {
-				out = append(out, violation{Sig: "api:object-outside-namespace", Detail: fmt.Sprintf("%s: %d objects found in namespace %q, expected only %v", stage, objCount(o), n, allowed)})
-			}
-		}
+		out = append(out, objectsOutside(stage, all, allowed...)...)
 	}
 
-	// 1. first deploy
 	// A failing Deploy is not a verdict by itself, but whatever it did before failing is judged.
 	partial := func(stage string, l mtypes.LeaseID, derr error) ([]violation, bool, error) {
 		a := &checkCtx{lid: l, ns: kube.VerifLidNS(l), stage: stage + " (failed: " + derr.Error() + ")"}
@@ -458,45 +510,40 @@ func evalDeploy(in *caseInput) ([]violation, bool, error) {
 		}
 		return out, false, machineryError{stage + ": " + derr.Error()}
 	}
-	if err := cl.Deploy(ctx, lid, &in.Group); err != nil {
-		return partial("deploy#1", lid, err)
-	}
-	a1 := &checkCtx{lid: lid, ns: ns, stage: "deploy#1"}
-	auditActions(a1, kc.Actions())
-	out = append(out, a1.out...)
-	all, err := listAll(kc)
-	if err != nil {
-		return nil, false, machineryError{err.Error()}
-	}
-	check("deploy#1", lid, &in.Group, all, in.Foreign, nil)
-	expectOnly("deploy#1", all, ns)
-	for _, a := range ac.Actions() {
-		if a.GetNamespace() != "lease" {
-			out = append(out, violation{Sig: "api:manifest-crd-namespace", Detail: "manifest CRD written to namespace " + a.GetNamespace()})
-		}
-	}
 
-	// 2. update with a changed manifest
-	if in.Group2 != nil {
+	var all map[string]*objects
+	var err error
+	var freshFirst map[string]bool
+	cur := steps[0].group
+	for i, sp := range steps {
+		stage := fmt.Sprintf("deploy#%d", i+1)
+		st = sp.st
+		cl = kube.VerifNewClient(nopLog, "lease", st, kc, ac)
 		kc.ClearActions()
-		if err := cl.Deploy(ctx, lid, in.Group2); err != nil {
-			return partial("deploy#2", lid, err)
+		if err := cl.Deploy(ctx, lid, sp.group); err != nil {
+			return partial(stage, lid, err)
 		}
-		a2 := &checkCtx{lid: lid, ns: ns, stage: "deploy#2"}
-		auditActions(a2, kc.Actions())
-		out = append(out, a2.out...)
-		fresh := freshPols()
+		a := &checkCtx{lid: lid, ns: ns, stage: stage}
+		auditActions(a, kc.Actions())
+		out = append(out, a.out...)
+		var fresh map[string]bool
+		if i > 0 {
+			fresh = freshPolicies(kc.Actions())
+			freshFirst = fresh
+		}
 		if all, err = listAll(kc); err != nil {
 			return nil, false, machineryError{err.Error()}
 		}
-		check("deploy#2", lid, in.Group2, all, in.Foreign, fresh)
-		expectOnly("deploy#2", all, ns)
-	}
-	cur := &in.Group
-	var freshFirst map[string]bool
-	if in.Group2 != nil {
-		cur = in.Group2
-		freshFirst = freshPols() // kc still holds the actions of Deploy#2
+		check(stage, lid, sp.group, all, in.Foreign, fresh)
+		expectOnly(stage, all, ns)
+		cur = sp.group
+		if i == 0 {
+			for _, a := range ac.Actions() {
+				if a.GetNamespace() != "lease" {
+					out = append(out, violation{Sig: "api:manifest-crd-namespace", Detail: "manifest CRD written to namespace " + a.GetNamespace()})
+				}
+			}
+		}
 	}
 
 	// 3. a second lease on the same cluster, then tear the first one down
